@@ -272,7 +272,7 @@ def check_C07(res, scratch, tier, seed):
             ("R2r3", mcgram_cfg([1], [11], 2, 3, 4, True, [4], False), few)]
     if tier == "thorough":
         fams += [("R2l4", mcgram_cfg([1, 2], [11, 12], 2, 2, 4, True, [0, 4, 7], False), few),
-                 ("R2r3b", mcgram_cfg([1, 2], [11], 2, 3, 4, True, [4], False), matrix),
+                 ("R2r3b", mcgram_cfg([1, 2], [11], 2, 3, 4, True, [4], False), few),
                  ("R3", mcgram_cfg([1], [11, 12], 3, 2, 4, True, [1, 4], False), few)]
     for tag, cfg, mx in fams:
         lines = run_trace_family(res, scratch, tag, cfg, mx, builds, props=("C07",), timeout=3000, classify=classify_trace)
@@ -972,7 +972,7 @@ def check_C11(res, scratch, tier, seed):
     fams = [("D2", mcdescr_cfg([1, 2], [11], 2, 2, 3, False, [0, 3, 4, 5], [0, 1, 2, 3, 4])),
             ("D1e", mcdescr_cfg([1, 2], [11, 12], 1, 3, 2, True, [1, 4, 7, 9], [0, 1, 3]))]
     if tier == "thorough":
-        fams += [("D2b", mcdescr_cfg([1, 2], [11, 12], 2, 2, 3, False, [0, 1, 4, 5, 7, 8, 9], [0, 1, 2, 3, 4]))]
+        fams += [("D2b", mcdescr_cfg([1, 2], [11, 12], 2, 2, 3, False, [1, 5, 8], [0, 1, 3]))]
     texts = []
     for tag, cfg in fams:
         t = run_tlc(scratch, "MCDescr", cfg, tag, timeout=3000)
@@ -1019,7 +1019,7 @@ def check_C11(res, scratch, tier, seed):
     rnd = random.Random(seed)
     muts = []
     alphabet = b" \n\t;:|#-()=/*'aT0_9Z%\x80\x01"
-    base = rnd.sample(texts, min(len(texts), 300 if tier == "quick" else 3000))
+    base = rnd.sample(texts, min(len(texts), 300 if tier == "quick" else 1500))
     for tx in base:
         for _ in range(3):
             b = bytearray(tx)
